@@ -77,7 +77,7 @@ def master_equations(par: dict, tree, survival: bool, steps_per_unit=4000):
     def epoch_of_age(a, left_open=False):
         """epoch containing age a (forward time T-a in [t_i, t_{i+1}) ; at a boundary seen from the younger side
         when integrating backwards)"""
-        ft = T - a
+        ft = t[on_boundary[a] + 1] if a in on_boundary else T - a
         for i in range(m - 1, -1, -1):
             if ft > t[i] or (ft == t[i] and i == 0):
                 return i
@@ -85,8 +85,26 @@ def master_equations(par: dict, tree, survival: bool, steps_per_unit=4000):
                 return i - 1 if left_open else i
         return 0
 
-    # boundaries as ages, young to old: age of forward time t[i+1] for i = m-1 .. 0 carries rho[i]
-    bnd = [(T - t[i + 1], par["rho"][i]) for i in range(m - 1, -1, -1)]
+    # boundaries as ages, young to old: age of forward time t[i+1] for i = m-1 .. 0 carries rho[i].
+    # CONTRACT of the coincidences: a node of age a sits on the boundary t_i when the FORWARD times agree, T - a == t_i (the
+    # expression a user computes a shift time with); T - t_i == a is a different statement in floats (T - (T - a) != a for most
+    # non-dyadic a). Every node age that coincides with a boundary in forward time is therefore replaced by the canonical age
+    # T - t_i of that boundary (a move of at most an ulp), so that the age comparisons below express the forward-time coincidence,
+    # also when several bitwise different ages hit the same boundary.
+    b_age = [T - t[i + 1] for i in range(m)]
+    on_boundary = {}  # canonical age -> boundary index
+
+    def snap(node):
+        a = node[0]
+        for i in range(m):
+            if T - a == t[i + 1]:
+                a = b_age[i]
+                on_boundary[a] = i
+                break
+        return (a,) if len(node) == 1 else (a, snap(node[1]), snap(node[2]))
+
+    tree = snap(tree)
+    bnd = [(b_age[i], par["rho"][i]) for i in range(m - 1, -1, -1)]
 
     def rates(i):
         return par["lam"][i], par["mu"][i], par["psi"][i]
@@ -156,7 +174,7 @@ def master_equations(par: dict, tree, survival: bool, steps_per_unit=4000):
             if at_boundary and at_boundary[0] > 0:
                 # rho-sampled at the end of forward epoch j: removed with probability r_j, otherwise it stays and
                 # must have no sampled descendant afterwards (p0 on the younger side of the boundary)
-                j = next(k for k in range(m) if T - t[k + 1] == a)
+                j = next(k for k in range(m) if b_age[k] == a)
                 r = 1.0 if par.get("r") is None else par["r"][j]
                 g0 = at_boundary[0] * (r + (1 - r) * p0_young(a))
             else:
